@@ -56,6 +56,7 @@ PEER_FAULTS = (
     + [{"kind": "bad_url", "url": u} for u in ("http://schema.test:notaport/graphql", "schema.test/graphql", "://nothing",
                                                 "ftp://schema.test/x", "http://exa mple\x00.test/", "http://unknown-host.test/graphql")]
     + [{"kind": "transport", "v": v} for v in range(3)]
+    + [{"kind": "env_empty"}, {"kind": "env_unset"}]
 )
 
 
@@ -267,7 +268,11 @@ def run_case(case, ch: Choices) -> RunResult:
                                            "application/graphql-response+json", "application/graphql-response+json; charset=utf-8", None])
             http = {"sdl": sdl, "fault": fault if fault and fault["kind"] != "bad_url" else None, "content_type": ctype,
                     "ensure_ascii": not ch.chance("peer.raw_unicode", 1, 2),
-                    "encoding": ch.pick("peer.encoding", [None, None, None, "utf-8-sig", "utf-16", "utf-32", "latin1-label", "utf-16-le"])}
+                    "encoding": ch.pick("peer.encoding", [None, None, None, "utf-8-sig", "utf-16", "utf-32", "latin1-label", "utf-16-le"]),
+                    # half of the healthy endpoints only know the June 2018 introspection schema
+                    "legacy": ch.chance("peer.legacy_introspection_schema", 1, 2)}
+            if http["legacy"]:
+                res.bump("peer.legacy_introspection_schema")
             if http["encoding"]:
                 res.bump("peer.body_encoding.%s" % http["encoding"])
             # history inside one interpreter: the same endpoint was introspected earlier in this process for another
@@ -281,7 +286,14 @@ def run_case(case, ch: Choices) -> RunResult:
                 pre_runs = [{"cwd": root_p, "argv": mp_["argv"], "env": {"SIM_TOKEN_OLD": "old-" + token}}] * (1 + ch.draw("remote.npre", 2))
                 res.bump("remote.same_process_earlier_introspection")
             loc_c = genrun.LOCALE_ENVS[ch.draw("env.locale_remote", len(genrun.LOCALE_ENVS))] if world.get("locale_safe") else None
-            rc = genrun.run_child(root_c, mc["argv"], mc["targets"], env={"SIM_TOKEN": token, "SIM_OTHER_" + token.rsplit("_", 1)[-1]: "wrong-value"}, http=http,
+            env_c = {"SIM_TOKEN": token, "SIM_OTHER_" + token.rsplit("_", 1)[-1]: "wrong-value"}
+            unset_c = []
+            if fault and fault["kind"] == "env_empty":
+                env_c["SIM_TOKEN"] = ""          # exported but empty (a CI secret that is not available to this build)
+            if fault and fault["kind"] == "env_unset":
+                env_c.pop("SIM_TOKEN")
+                unset_c = ["SIM_TOKEN"]
+            rc = genrun.run_child(root_c, mc["argv"], mc["targets"], env=env_c, env_unset=unset_c, http=http,
                                   pre_runs=pre_runs, timeout=90 if not pre_runs else 240, proc_env=loc_c)
             if pre_runs:
                 rc["http"] = (rc.get("http") or [])[rc.get("http_main_from", 0):]
@@ -294,7 +306,7 @@ def run_case(case, ch: Choices) -> RunResult:
             trace.append("remote: url=%s fault=%s verify=%s -> exit %s %s %r; requests=%d" % (
                 url, json.dumps(fault), verify, rc.get("exit"), exc.get("type"), (exc.get("msg") or "")[:200], len(rc.get("http", []))))
             # ---- what was sent
-            for rq in rc.get("http", []):
+            for rq in [r_ for r_ in rc.get("http", []) if "method" in r_]:
                 hd = {}
                 for k, v in rq["headers"]:
                     hd.setdefault(k, []).append(v)
@@ -362,7 +374,15 @@ def run_case(case, ch: Choices) -> RunResult:
                     res.bump("bad_url." + cls_)
                     if cls_ == "unreachable":
                         fk = "transport"
-                if fk == "transport":
+                if fk in ("env_empty", "env_unset"):
+                    # the header cannot be resolved: nothing may be sent (certainly not an empty credential), nothing written
+                    if rc.get("http"):
+                        res.violations.append(Violation("introspection-headers", "SIM_TOKEN is %s but a request was sent, Authorization=%r" % (
+                            fk.split("_")[1], [v_ for rq_ in rc["http"] for k_, v_ in rq_.get("headers", []) if k_ == "authorization"]), {"fault": fk}))
+                    if rc.get("exit") == 0 or wrote:
+                        res.violations.append(Violation("introspection-fault-accepted", "unresolvable header variable (%s): exit=%s wrote=%s" % (
+                            fk, rc.get("exit"), wrote), {"fault": fk}))
+                elif fk == "transport":
                     if rc.get("exit") == 0 or wrote:
                         res.violations.append(Violation("transport-fault-wrote", "transport failure but exit=%s wrote=%s" % (rc.get("exit"), wrote), {}))
                 elif fk == "torn" and rc.get("exit") == 0:
